@@ -144,13 +144,19 @@ Definition apply_ops (s : store) (ops : list op) : store := fold_left apply_op o
 Definition apply_batches (s : store) (bs : list (list op)) : store := fold_left apply_ops bs s.
 
 (* ---------------------------------------------------------------- accessors.go: the batches *)
-(* per-block work of pruneHashKeyedUpto's loop body for block n when the sweep ends at e
-   (endExclusive-1 is computed on uint64; its hash->number entry is the carve-out) *)
+(* per-block work of pruneHashKeyedUpto's loop body for block n: the hash->number entry deleted while
+   block n is processed is the one of block n-1 (prevBlockHash: the carve-out of the previous call when
+   n = start, otherwise the block handled by the previous iteration), so that wherever the loop stops -
+   at endExclusive or at the block where ctx.Err() is first seen - the entry of the last pruned block
+   survives (since /repo "fix: pruner keeps the hash->number carve-out ... when cancelled"; before,
+   the entry of n itself was deleted unless n = endExclusive-1, and a cancelled run lost the carve-out).
+   e is the sweep's endExclusive (no longer consulted by the body). *)
 Definition block_ops (e n : N) : list op :=
-  (if n =? sub64 e 1 then [] else [DHashNum n]) ++ [DTxLook n; DHist n].
+  (if 0 <? n then [DHashNum (n - 1)] else []) ++ [DTxLook n; DHist n].
 
-(* "Clean up the carve-out left by the previous PruneUpto call" *)
-Definition init_ops (start : N) : list op := if 0 <? start then [DHashNum (start - 1)] else [].
+(* nothing is queued before the loop any more (the previous call's carve-out start-1 is deleted by the
+   first iteration) *)
+Definition init_ops (start : N) : list op := [].
 
 (* the loop: n = blockNum, k = block at which ctx.Err() is first seen (k = e: never cancelled),
    rot n = "batch.Size() >= targetBatchByteSize after block n", cur = the open batch.
